@@ -101,7 +101,7 @@ def rand_body(rng, depth):
     return t % (rand_body(rng, depth - 1), rand_body(rng, depth - 1))
 
 
-ARGS1 = ["1", "-2", "0", "\"s\"", "[1, 2, 3]", "null", "{a: 1}", "true", "z => z"]
+ARGS1 = ["1", "-2", "0", "\"s\"", "[1, 2, 3]", "null", "{a: 1}", "true", "false", "z => z"]
 ARGSN = {"": [""], "x": ARGS1, "k": ["1", "\"s\""], "...x": ["", "1, 2"], "x, y": ["1, 2", "\"a\", [1]"],
          "x, y?": ["1", "1, 2"], "x, ...y": ["1", "1, 2, 3"]}
 
@@ -216,6 +216,7 @@ WITNESS = {
     "F50": ("k = 5\nf = x => do {\n  y = k\n  k = x\n  return k + y\n}", ["1"]),
     "F8": ("g = 7\nf = do {\n  g = () => g\n  return g\n}", [""]),
     "F12-F14": ("k = 2\nf = x => -(x + k)", ["1"]),
+    "F51": ("k = 5\nf = x => (k into (z => [z, x]))", ["1"]),
 }
 
 
@@ -238,17 +239,26 @@ def repo_state(h):
     st["do"] = not reproduces(h, "F50")[0]
     st["self"] = not reproduces(h, "F8")[0]
     st["paren"] = not reproduces(h, "F12-F14")[0]
+    st["body"] = not reproduces(h, "F51")[0]
     return st
 
 
-def excuse(bits, state, what="law"):
+def excuse(bits, state, what="law", open_ids=None):
     """the open known-finding class that covers a difference for a function with these class bits
     (mirrors the exclusions of the Coq statements: Emit.v v_has_nan / v_needs_escape / v_do_shadows /
     v_self_shadow / paren_lossy before and after inlining).  what = "ast1": the emitted text itself;
     "law": behaviour / body of the reloaded function — the reload path prints the parsed body once more
     with the plain printer, so a shape that needs parentheses only AFTER inlining (a negative literal or an
     inlined closure as an operand) is rendered correctly by the emission and then broken by F12-F14."""
-    nan, esc, bothq, dosh, selfn, closed, lossy0, lossy1 = [x == "1" for x in bits]
+    nan, esc, bothq, dosh, selfn, closed, lossy0, lossy1, topnat = [x == "1" for x in bits]
+    ex = _excuse(nan, esc, dosh, selfn, lossy0, lossy1, topnat, state, what)
+    # only OPEN known findings excuse anything: a class whose entry is "fixed" is a regression
+    if ex is not None and open_ids is not None and ex not in open_ids:
+        return None
+    return ex
+
+
+def _excuse(nan, esc, dosh, selfn, lossy0, lossy1, topnat, state, what):
     if nan and not state["nan"]:
         return "F10"
     if esc and not state["str"]:
@@ -257,6 +267,8 @@ def excuse(bits, state, what="law"):
         return "F50"
     if selfn and not state["self"] and what == "law":
         return "F8"
+    if topnat and not state["body"]:
+        return "F51"
     if lossy0 and not state["paren"]:
         return "F12-F14"
     if lossy1 and not lossy0:
@@ -329,6 +341,7 @@ def main(argv):
 
     c.proof_step(res, PID, extra_targets=["EmitRun.vo"])
     state = repo_state(h)
+    open_ids = {e["id"] for e in c.open_known(PID)}
     rng = c.Rng(seed)
     cases = gen_cases(rng, tier)
     # corpus first
@@ -352,7 +365,11 @@ def main(argv):
         res.tie_broken(e.what, e.detail)
         reports = [None] * len(cases)
 
-    want = (1 if state["nan"] else 0) + (2 if state["do"] else 0)
+    # the model variant the implementation is compared with: the repaired emission, unless the
+    # defect is an OPEN known finding and still reproduces
+    nanfix = state["nan"] or "F10" not in open_ids
+    dofix = state["do"] or "F50" not in open_ids
+    want = (1 if nanfix else 0) + (2 if dofix else 0)
     stats = {"cases": len(cases), "errprog": 0, "not_closed": 0, "ast_agree": 0, "ast2_agree": 0, "ast_excused": {},
              "ast_mismatch": 0, "law_checked": 0, "law_ok": 0, "law_excused": {}, "law_violations": 0,
              "by_kind": {}, "ok_results": 0, "err_results": 0, "fn_results": 0}
@@ -366,12 +383,12 @@ def main(argv):
             continue
         if rep is None:
             continue
-        bits = rep[1:9]
+        bits = rep[1:10]
         a1 = rep.split(" A1")[1][:4]
         a2 = rep.split(" A2")[1][:4]
         closed = bits[5] == "1"
-        ex = excuse(bits, state)
-        ex1 = excuse(bits, state, "ast1")
+        ex = excuse(bits, state, "law", open_ids)
+        ex1 = excuse(bits, state, "ast1", open_ids)
         # --- (i) correspondence: emitted text parsed by the real parser == model AST
         if a1[want] == "1":
             stats["ast_agree"] += 1
@@ -415,7 +432,7 @@ def main(argv):
                        % (len(mism), len(cases)), "first: %r\nwhat: %s\nreport: %s" % mism[0])
 
     # --- model behaviour vs implementation (sample)
-    cand = [i for i, (d, rep) in enumerate(zip(parsed, reports)) if rep and "VAL" in d and excuse(rep[1:9], state) is None
+    cand = [i for i, (d, rep) in enumerate(zip(parsed, reports)) if rep and "VAL" in d and excuse(rep[1:10], state, "law", open_ids) is None
             and rep.split(" A1")[1][:4][want] == "1"]
     n_beh = 300 if tier == "quick" else 3000
     if len(cand) > n_beh:
@@ -423,7 +440,7 @@ def main(argv):
     beh_agree = beh_skip = 0
     beh_mism = []
     try:
-        mb = model_behaviour(h, cases, parsed, cand, state, "c05b")
+        mb = model_behaviour(h, cases, parsed, cand, {"nan": nanfix, "do": dofix}, "c05b")
         for i, out in mb.items():
             if out is None:
                 continue
@@ -453,7 +470,7 @@ def main(argv):
     for i in pick:
         kind, prog, args = cases[i]
         o1, o2, o3 = cli_chain(cli, prog, args)
-        ex = excuse(reports[i][1:9], state)
+        ex = excuse(reports[i][1:10], state, "law", open_ids)
         good = isinstance(o2, dict) and isinstance(o3, dict) and all(
             o1.get("r%d" % j) == o2.get("r%d" % j) == o3.get("r%d" % j) for j in range(len(args)))
         # the in-process result says whether this function reloads faithfully
@@ -466,7 +483,7 @@ def main(argv):
             res.violation("blots prog1 | blots prog2 | blots prog2: the reloaded function gives different outputs",
                           {"kind": "cli-chain", "program": prog, "args": args, "prog1": o1, "prog2": o2,
                            "prog2_again": o3 if isinstance(o3, dict) else str(o3), "in_process_agrees": inproc})
-    res.streams["EMIT"] = dict(stats, repo_state=state, model_variant="nanfix=%s dofix=%s" % (state["nan"], state["do"]),
+    res.streams["EMIT"] = dict(stats, repo_state=state, model_variant="nanfix=%s dofix=%s" % (nanfix, dofix),
                                pool=len(POOL), small_shapes=len(small_bodies()),
                                behaviour_model_agree=beh_agree, behaviour_model_skipped_unmodelled=beh_skip,
                                behaviour_model_mismatch=len(beh_mism), cli_chains=len(pick), cli_chains_ok=chain_ok,
@@ -488,7 +505,8 @@ def main(argv):
     res.coverage["traces_validated_against_impl"] = stats["ast_agree"] + beh_agree
 
     # --- known findings
-    wid = {"F10": ["F10"], "F11": ["F11", "F11b"], "F15": ["F15"], "F50": ["F50"], "F8": ["F8"], "F12-F14": ["F12-F14"]}
+    wid = {"F10": ["F10"], "F11": ["F11", "F11b"], "F15": ["F15"], "F50": ["F50"], "F8": ["F8"], "F12-F14": ["F12-F14"],
+           "F51": ["F51"]}
     for e in c.open_known(PID):
         rep_now = any(reproduces(h, w)[0] for w in wid.get(e["id"], []))
         res.known("%s %s%s" % (e["id"], e["what"], "" if rep_now else " (no longer reproduces)"))
